@@ -7,6 +7,7 @@ model, byte-identity of a second save, content-identity of a save of the
 loaded model, survival of cycles / filename / hash / extra_data; loading in
 the same process, on a fresh thread and in a brand-new process."""
 
+import itertools
 import json
 import math
 import os
@@ -488,6 +489,64 @@ def check_save_sequence(rec, spec, steps):
 
 # -- dedicated cases for the known open findings ------------------------------
 
+def check_source_hash(rec):
+    """the hash of the workbook the model was compiled from survives the
+    trip, whatever happened to the workbook file in the meantime"""
+    from openpyxl import Workbook
+    from pycel.excelcompiler import ExcelCompiler
+
+    def book(path, a1):
+        wb = Workbook()
+        ws = wb.active
+        ws.title = 'S'
+        ws['A1'], ws['B1'], ws['C1'] = a1, 2, '=A1+B1'
+        wb.save(path)
+
+    for fmt, state in itertools.product(
+            ('yml', 'json', 'pkl'),
+            ('intact', 'edited', 'removed', 'removed-then-resaved')):
+        case = dict(kind='source-hash', fmt=fmt, state=state)
+        rec.case(key=('source-hash', fmt, state), nontrivial=state != 'intact',
+                 labels=('source-hash',), sample=case)
+        try:
+            with TempDir() as tmp:
+                xlsx = os.path.join(tmp, 'book.xlsx')
+                book(xlsx, 1)
+                original = ExcelCompiler(filename=xlsx)
+                original.evaluate('S!C1')
+                digest = original._excel_file_md5_digest
+                if state == 'edited':
+                    book(xlsx, 100)
+                elif state == 'removed':
+                    os.remove(xlsx)
+                stem = os.path.join(tmp, 'saved')
+                original.to_file(stem, file_types=(fmt,))
+                if state == 'removed-then-resaved':
+                    os.remove(xlsx)
+                loaded = ExcelCompiler.from_file(f'{stem}.{fmt}')
+                if state == 'removed-then-resaved':
+                    stem2 = os.path.join(tmp, 'resaved')
+                    loaded.to_file(stem2, file_types=(fmt,))
+                    if fmt != 'pkl' and parse_text_file(f'{stem}.{fmt}') != \
+                            parse_text_file(f'{stem2}.{fmt}'):
+                        rec.fail(f'source-hash:resave-differs:{fmt}', case,
+                                 'saving the loaded model after the workbook '
+                                 'was removed changed the file content')
+                    loaded = ExcelCompiler.from_file(f'{stem2}.{fmt}')
+                if loaded._excel_file_md5_digest != digest:
+                    rec.fail(f'source-hash:lost:{fmt}:{state}', case,
+                             f'compiled from a workbook with hash {digest}, '
+                             f'workbook {state}: the loaded model carries '
+                             f'{loaded._excel_file_md5_digest}')
+                elif loaded.hash_matches != original.hash_matches:
+                    rec.fail(f'source-hash:matches:{fmt}:{state}', case,
+                             f'hash_matches {original.hash_matches} -> '
+                             f'{loaded.hash_matches}')
+        except Exception as exc:
+            rec.fail(f'source-hash:raises:{exc_key(exc)}', case,
+                     repr(exc)[:300])
+
+
 def check_open_findings(rec):
     from pycel.excelcompiler import ExcelCompiler
     for fmt in ('yml', 'json', 'pkl'):
@@ -616,6 +675,7 @@ def shards(tier, seed):
 def run_shard(shard, rec):
     if shard['kind'] == 'open':
         check_open_findings(rec)
+        check_source_hash(rec)
     elif shard['kind'] == 'saves-enum':
         import itertools
         spec = dict(sheets={'S': {'A1': 1, 'B1': 2, 'A2': '=A1+B1',
@@ -672,6 +732,9 @@ def run_shard(shard, rec):
 
 
 def replay(case, rec):
+    if isinstance(case, dict) and case.get('kind') == 'source-hash':
+        check_source_hash(rec)
+        return
     if isinstance(case, dict) and case.get('kind') == 'open':
         check_open_findings(rec)
         return
